@@ -15,7 +15,7 @@ import (
 
 func TestVerif_C04(t *testing.T) {
 	rep := verifkit.NewReport("C04")
-	rep.Rule = "each case: a synced node; a block of n transactions (n in 1..40 and 63..66, so every odd row count occurs) with a generated set of relevant positions (single position, pair, random subset), each relevant tx new, already delivered unconfirmed, or delivered and then flagged unsafe by a double spend, sent as MsgBlock or MsgParseBlock; valid cases are judged by the harness' own merkle-path verifier against the header the node holds; corrupt cases (drop i, duplicate i, insert foreign tx at i, swap i/j, alter tx i, under the unchanged header; bodies whose independently computed root still equals the header root are skipped) must leave height and callbacks unchanged. Non-trivial = every case; distinct by (n, relevant positions class, new/seen pattern, corruption)"
+	rep.Rule = "each case: a synced node; a block of n transactions (n in 1..40 and 63..66, so every odd row count occurs) with a generated set of relevant positions (single position, pair, random subset), each relevant tx new, already delivered unconfirmed, or delivered and then flagged unsafe by a double spend, or arriving from the trusted peer while the block is being processed, sent as MsgBlock or MsgParseBlock; valid cases are judged by the harness' own merkle-path verifier against the header the node holds; corrupt cases (drop i, duplicate i, insert foreign tx at i, swap i/j, alter tx i, under the unchanged header; bodies whose independently computed root still equals the header root are skipped) must leave height and callbacks unchanged. Non-trivial = every case; distinct by (n, relevant positions class, new/seen pattern, corruption)"
 	rep.Assumptions = []string{"independent verifier verifkit.VerifyMerklePath / MerkleRoot (double SHA-256, odd rows duplicate the last node)", "blocks need no proof of work"}
 	defer rep.Write()
 	sizes := []int{}
@@ -89,7 +89,23 @@ func TestVerif_C04(t *testing.T) {
 			shape := fmt.Sprintf("n=%d/rel=%d/%s/parse=%v/%s", size, len(rel), seenPattern, parse, corruption)
 			if corruption == "" {
 				snap := w.e.store.Clone()
+				midArrival := map[*txInfo]bool{}
+				if r.Intn(4) == 0 && len(txs) > 0 {
+					// the body of a transaction of this block (relevant or not) reaches the node
+					// while the block is being processed: tx processor and block processor overlap
+					for k := 0; k < 1+r.Intn(2); k++ {
+						t := txs[r.Intn(len(txs))]
+						w.midBlock = append(w.midBlock, t)
+						midArrival[t] = true
+					}
+					w.midBlockAt = r.Intn(3)
+					shape += "/mid-block-arrival"
+				}
 				w.mine(txs, parse)
+				for _, t := range w.midBlock {
+					w.arrive(t, "trusted-bare", true)
+				}
+				w.midBlock = nil
 				if r.Intn(6) == 0 && len(rel) >= 1 {
 					// crash image of an initial sync: the per-height tx records of the block reached
 					// storage, the header file did not; a new node processes the block again
@@ -125,7 +141,7 @@ func TestVerif_C04(t *testing.T) {
 							if ti.processedUnconf > 0 {
 								wantKind = "update"
 							}
-							if ev.Kind != wantKind {
+							if ev.Kind != wantKind && !midArrival[ti] { // (which of the two goroutines got there first is open for a mid-block arrival)
 								w.find("C04", "C04/confirmation-wrong-notification-kind", fmt.Sprintf("%s (seen before=%v) confirmed through a %s notification", ti.name, ti.processedUnconf > 0, ev.Kind))
 							}
 						}
